@@ -17,6 +17,13 @@ LEVEL_NOTE = ("theorems are about the path arithmetic of the exclusion / ignore 
 DATA = core.VERIF / "harness" / "data"
 
 CFG = ("ignore:\n  - \"lib/generated/\"\n  - \"src/gen_*.py\"\n"      # root-anchored repository ignore patterns
+       # per-linter ignore lists that name the words used as parent directories: inside the project nothing matches them
+       "magic-numbers:\n  ignore: [\"tests/\", \"test_data\", \"build/\", \"examples/\", \"fixtures\", \"dist/\", \"venv\"]\n"
+       "method-property:\n  ignore: [\"tests/\", \"build/\", \"examples/\", \"fixtures\"]\n"
+       "stateless-class:\n  ignore: [\"tests/\", \"build/\", \"examples/\", \"fixtures\"]\n"
+       "print-statements:\n  ignore: [\"tests/\", \"build/\", \"examples/\", \"fixtures\"]\n"
+       "pipeline:\n  ignore: [\"tests/\", \"build/\", \"examples/\", \"fixtures\"]\n"
+       "file-header:\n  ignore: [\"tests/\", \"build/\", \"examples/\", \"fixtures\"]\n"
        "dry:\n  enabled: true\n  min_duplicate_lines: 4\n"
        "file-placement:\n  directories:\n    src:\n      allow:\n        - \".*\\\\.py$\"\n    lib/helpers:\n      deny:\n        - pattern: \".*\\\\.ts$\"\n          reason: \"no ts here\"\n")
 
